@@ -127,7 +127,9 @@ def listing(d):
     return out
 
 
-def one_store(net_kind, srv, handler, cl, ds, ts, from_file, workdir, rng, dir_mode, storage_dir):
+def one_store(net_kind, srv, handler, cl, ds, ts, from_file, workdir, rng, dir_mode, storage_dir, other=None):
+    """other: a second requesting entity (another transfer syntax) whose association is opened after this one and kept
+    open while the store is done."""
     data = dsutils.encode(ds, ts.is_implicit_VR, ts.is_little_endian)
     src = ds
     if from_file:
@@ -151,7 +153,11 @@ def one_store(net_kind, srv, handler, cl, ds, ts, from_file, workdir, rng, dir_m
     try:
         with cl.request_association(REMOTE) as assoc:
             svc = assoc.get_scu(CT)
-            st = svc(src, rng.choice([1, 2, 65535]))
+            if other is not None:
+                with other.request_association(REMOTE):
+                    st = svc(src, rng.choice([1, 2, 65535]))
+            else:
+                st = svc(src, rng.choice([1, 2, 65535]))
             obs['scuStatus'] = int(st)
     except Exception as exc:      # noqa
         err = '%s: %s' % (type(exc).__name__, exc)
@@ -197,7 +203,13 @@ def main(tier='quick'):
                     pass
             else:
                 srv = R.server_ae(ae_mod.AE, 'SRV', 0, supported_ts=[ts], max_pdu_length=max_b)
+            # a node that also forwards what it stores is user of the class as well (configured before or after)
+            role_order = ('scp', 'scu-scp', 'scp-scu')[ci % 3]
+            if role_order == 'scu-scp':
+                srv.add_scu(sc.storage_scu, [CT])
             srv.add_scp(sc.storage_scp)
+            if role_order == 'scp-scu':
+                srv.add_scu(sc.storage_scu, [CT])
             srv.on_receive_store = handler
             srv.timeout = 120
             cl = ae_mod.ClientAE('CL', supported_ts=[ts], max_pdu_length=max_a).add_scu(sc.storage_scu, [CT])
@@ -226,11 +238,35 @@ def main(tier='quick'):
                         from_file = bool((k + ci) % 2)
                     obs, err, herr = one_store(net, srv, handler, cl, ds, ts, from_file, work, rng, dir_mode, sdir)
                     meta = {'ts': str(ts), 'dir': dir_mode, 'maxA': max_a, 'maxB': max_b, 'size': size, 'from_file': from_file,
-                            'outcome': handler.outcome, 'repeat': inst is not None}
+                            'outcome': handler.outcome, 'repeat': inst is not None, 'roles': role_order}
                     if err:
                         n_err += 1
                         v.report({'site': 'whole-stack', 'clause': 'store-raised', 'exc': err.split(':')[0]},
                                  'storage_scu raised %s (%r)' % (err, meta), replay=meta)
+                    if herr:
+                        v.report({'site': 'whole-stack', 'clause': 'received-file-unreadable'}, 'handler could not read the file: %s (%r)' % (herr, meta), replay=meta)
+                    cases.append(obs)
+                    metas.append(meta)
+            # the same entity serving a second association with ANOTHER transfer syntax while the store is done
+            if n_err < 3:
+                ts2 = TSS[(ci + 1) % 3]
+                handler2 = Handler()
+                srv2 = R.server_ae(ae_mod.AE, 'SRV', 0, supported_ts=[ts, ts2], max_pdu_length=16384)
+                srv2.add_scp(sc.storage_scp)
+                srv2.on_receive_store = handler2
+                srv2.timeout = 60
+                cl_a = ae_mod.ClientAE('CLA', supported_ts=[ts], max_pdu_length=16384).add_scu(sc.storage_scu, [CT])
+                cl_b = ae_mod.ClientAE('CLB', supported_ts=[ts2], max_pdu_length=16384).add_scu(sc.storage_scu, [CT])
+                cl_a.timeout = cl_b.timeout = 60
+                with R.Net() as net:
+                    net.register(ADDR, srv2)
+                    ds = make_dataset(rng, 300, None)
+                    obs, err, herr = one_store(net, srv2, handler2, cl_a, ds, ts, False, work, rng, False, sdir, other=cl_b)
+                    meta = {'ts': str(ts), 'dir': False, 'maxA': 16384, 'maxB': 16384, 'size': 300, 'from_file': False, 'outcome': 0,
+                            'repeat': False, 'roles': 'scp', 'second_association_ts': str(ts2)}
+                    if err:
+                        n_err += 1
+                        v.report({'site': 'whole-stack', 'clause': 'store-raised', 'exc': err.split(':')[0]}, 'storage_scu raised %s (%r)' % (err, meta), replay=meta)
                     if herr:
                         v.report({'site': 'whole-stack', 'clause': 'received-file-unreadable'}, 'handler could not read the file: %s (%r)' % (herr, meta), replay=meta)
                     cases.append(obs)
